@@ -42,6 +42,10 @@ type c17Op struct {
 	// Slow > 0 (media uploads): the request reaches the handler now, its body only after Slow further operations
 	// (other uploads, also of the same track, are handled in between: a slow connection)
 	Slow int `json:"slow,omitempty"`
+	// SlowEOF (with Slow): the bytes of the body arrive at once, only its end is Slow operations late: the segment is
+	// parsed, numbered and written at once, the request (and the report to the channel) completes later, e.g. after
+	// the channel start
+	SlowEOF bool `json:"slow_eof,omitempty"`
 }
 
 type C17 struct{}
@@ -271,6 +275,7 @@ func (C17) Gen(rng *core.Rng, tier string, idx int) *core.Scenario {
 			}
 			if on["slow"] && o.Fault == "" && rng.Chance(0.15) { // the request arrives now, its body a few operations later
 				o.Slow = rng.Range(1, 2*nTr+2)
+				o.SlowEOF = rng.Chance(0.35)
 			}
 			slots[t][i] = append(slots[t][i], o)
 			if rng.Chance(dupP) {
@@ -471,6 +476,8 @@ type c17Run struct {
 	slowDone  bool
 	// slowOverStart: an upload was in flight across the channel start
 	slowOverStart bool
+	// videoJoinedLate: the first video track registered after a non-video track had started the channel
+	videoJoinedLate bool
 	// after a restart a non-video track delivered media before any video track did (the receiver then takes
 	// that track as master until the video returns)
 	nonVideoFirst bool
@@ -614,10 +621,22 @@ func (r *c17Run) deliver(ri *recvInst, op c17Op) bool {
 	if op.Slow > 0 && !op.Init {
 		p := &c17Pending{op: op, body: body, hold: op.Slow, gate: make(chan struct{}), beforeStart: !r.started}
 		go func() {
-			p.resp = ri.DoReader(method, path, &gatedBody{gate: p.gate, rd: bytes.NewReader(body)}, hdr)
+			p.resp = ri.DoReader(method, path, &gatedBody{gate: p.gate, rd: bytes.NewReader(body), eofOnly: op.SlowEOF}, hdr)
 			p.done = true
 		}()
 		synctest.Wait()
+		if op.SlowEOF {
+			res.Count("fault.slow-upload-end-only")
+			if p.done { // answered without waiting for the end of the body (refused)
+				return r.completed(op, ts, body, p.resp)
+			}
+			// The whole body has been consumed and the handler waits for its end: the segment is stored now. It is
+			// judged now, as an acknowledged upload (every callback succeeded; only the answer is outstanding).
+			p.early = true
+			r.pending = append(r.pending, p)
+			res.Event("up %s body consumed (end of body %d operations later)", op.recvUpload, op.Slow)
+			return r.completed(op, ts, body, &hx.Resp{Status: 200, Header: http.Header{}})
+		}
 		r.pending = append(r.pending, p)
 		res.Count("fault.slow-upload")
 		res.Event("up %s started (body %d operations later)", op.recvUpload, op.Slow)
@@ -648,6 +667,8 @@ type c17Pending struct {
 	done bool
 	// beforeStart: the request reached the handler before the channel had started (manifest.mpd not yet written)
 	beforeStart bool
+	// early: end-only slow upload that has been judged when its body was consumed
+	early bool
 }
 
 // releaseDue lets the bodies of the slow uploads arrive whose hold has run out (all of them if all is set).
@@ -675,6 +696,18 @@ func (r *c17Run) releaseDue(all bool) bool {
 		if p.beforeStart && r.started {
 			r.slowOverStart = true // its body arrived after the channel start (possibly with shifted numbers)
 		}
+		if p.early {
+			r.res.Event("up %s ended -> %d", p.op.recvUpload, p.resp.Status)
+			if p.resp.Panic != "" {
+				r.res.Violate("C17.keeps-processing", merge(r.feat, core.Sig("kind", "handler-panic", "frame", p.resp.PanicFrame, "upload", "media-slow")),
+					"%s: panic %s", p.op.recvUpload, p.resp.Panic)
+			}
+			if p.resp.Status/100 != 2 {
+				r.res.Count("probe.end-only-upload-refused-at-its-end")
+			}
+			r.observe(p.op.Tr, false)
+			continue
+		}
 		if !r.completed(p.op, r.tracks[p.op.Tr], p.body, p.resp) {
 			ok = false
 		}
@@ -695,6 +728,20 @@ func (r *c17Run) completed(op c17Op, ts *c17TrackState, body []byte, resp *hx.Re
 	if op.Init {
 		res.Count("op.init")
 		if ok2xx {
+			if ts.def.Kind == "video" && r.started {
+				videoBefore := false
+				for _, o := range r.tracks {
+					if o != ts && o.def.Kind == "video" && o.initOK {
+						videoBefore = true
+					}
+				}
+				if !videoBefore && !ts.initOK {
+					// the channel was started by a non-video track and gets its first video track now: the video
+					// takes over as master and the channel will start again under its numbering
+					r.videoJoinedLate = true
+					res.Count("probe.first-video-joined-after-channel-start")
+				}
+			}
 			ts.initOK = true
 		}
 		r.observe(op.Tr, false)
@@ -930,6 +977,9 @@ func (r *c17Run) sig(kv ...string) map[string]string {
 	if r.slowOverStart {
 		m["upload-in-flight-across-channel-start"] = "true"
 	}
+	if r.videoJoinedLate {
+		m["first-video-joined-after-channel-start"] = "true"
+	}
 	return m
 }
 
@@ -994,7 +1044,15 @@ func (r *c17Run) observe(track string, full bool) {
 		if len(nrs) == 0 {
 			continue
 		}
-		if int64(len(nrs)) > r.bound {
+		// an upload whose body has been consumed but whose request has not ended has stored its file and has not
+		// yet triggered the clean-up that its end triggers: one file more per such request of the track
+		open := int64(0)
+		for _, p := range r.pending {
+			if p.early && p.op.Tr == trn {
+				open++
+			}
+		}
+		if int64(len(nrs)) > r.bound+open {
 			res.Violate("C17.within-window", r.sig("kind", "stored-count", "overtaken-slow-upload-of-track", fmt.Sprint(ts.lateSlow), "after-restart-nonvideo-first", fmt.Sprint(r.nonVideoFirst)),
 				"track %s stores %d segments %v > bound %d (tsbd %d s, segment %d ms) after step %d", trn, len(nrs), nrs,
 				r.bound, r.w.tsbdOf(r.ch), r.segMS, r.step)
